@@ -161,19 +161,27 @@ def featurize(scn, res, v):
             if len(lst) >= 2:
                 multi_coro |= any(cb["coro"] for cb in lst)
                 multi_unless |= any(not cb["expected"] for cb in lst)
+    # F5 at construction: every coroutine callback the constructor sees is a guard whose name several providers carry
+    ctor = set(scn["steps"][0]["provs"]) | {"sm"}
+    coros = [cb for cb in d["cbs"] if cb["coro"] and cb["prov"] in ctor and registered(d, cb)]
+    def shared_guard(cb):
+        return cb["group"] == "cond" and sum(1 for x in d["cbs"] if x["group"] == "cond" and x["tix"] == cb["tix"]
+                                             and x.get("name") == cb.get("name") and x["prov"] in ctor) >= 2
+    only_multi = bool(coros) and all(shared_guard(cb) for cb in coros)
     dup_guard = False
     if nxt.get("e") == "B":
         cb = d["cbs"][nxt["c"] - 1]
         dup_guard = cb["group"] == "cond" and any(
             ln["e"] == "B" and ln["c"] == nxt["c"] for ln in lines[max(0, k - 12):k])
-    return {"listener_kind": scn.get("listener_kind", "attr"), "listener_reattached": readded, "duplicate_guard_begin": dup_guard, "late_async_listener": late_async,
+    return {"listener_kind": scn.get("listener_kind", "attr"), "coroutines_only_in_multi_provider_guards": only_multi,
+            "listener_reattached": readded, "duplicate_guard_begin": dup_guard, "late_async_listener": late_async,
             "multi_provider_coroutine_guard": multi_coro, "multi_provider_unless": multi_unless}
 
 
 def run(pid, tier, seed, replay):
     chk = framework.Check(pid, tier, seed)
     if replay:
-        rc = ec.replay_file(chk, replay)
+        rc = ec.replay_file(chk, replay, featurize=featurize)
         chk.finish()
         return rc
     rng = random.Random(12000 + seed)
